@@ -1,6 +1,64 @@
 //! C16: associated constants and type aliases. `const cfg NAME`, `const_bits cfg`, `const_bytes cfg`,
 //! `alias u64x0 NAME` -> "<bits>,<digit count>" of bnum::types::NAME.
+//! `cast <src> <dst> <hex>`: the `As` cast (`CastFrom`) between two bnum types, like bin c09 but for the
+//! configurations that c09's grid (`for_type!`, <= 192 bits) does not have: every ordered pair (both signednesses)
+//! inside each equal-width set of gen/c16.py `GROUPS` (16 ... 512 bits, and 8192 bits from all four digit types)
+//! and inside each (narrow, wide) extension pair of gen/c16.py `EXT`.
 use bnum_verif_harness::*;
+use bnum::cast::CastFrom;
+use bnum::{BInt, BIntD16, BIntD32, BIntD8, BUint, BUintD16, BUintD32, BUintD8};
+
+/// `fn $f(src, dst, x)`: `dst::cast_from(src::from_hex(x))` for every ordered pair of the listed types
+macro_rules! cast_set {
+    ($f:ident; $(($name:literal, $U:ty, $I:ty)),* $(,)?) => {
+        fn $f(src: &str, dst: &str, x: &str) -> Option<String> {
+            fn to_dst<S: Copy>(v: S, dst: &str) -> Option<String>
+            where $( $U: CastFrom<S>, $I: CastFrom<S>, )*
+            {
+                $(
+                    if dst == concat!("u", $name) { return Some(Pat::to_hex(&<$U as CastFrom<S>>::cast_from(v))); }
+                    if dst == concat!("i", $name) { return Some(Pat::to_hex(&<$I as CastFrom<S>>::cast_from(v))); }
+                )*
+                None
+            }
+            $(
+                if src == concat!("u", $name) { return to_dst(<$U as Pat>::from_hex(x), dst); }
+                if src == concat!("i", $name) { return to_dst(<$I as Pat>::from_hex(x), dst); }
+            )*
+            None
+        }
+    };
+}
+cast_set!(g16; ("8x2", BUintD8<2>, BIntD8<2>), ("16x1", BUintD16<1>, BIntD16<1>));
+cast_set!(g32; ("8x4", BUintD8<4>, BIntD8<4>), ("16x2", BUintD16<2>, BIntD16<2>), ("32x1", BUintD32<1>, BIntD32<1>));
+cast_set!(g64; ("8x8", BUintD8<8>, BIntD8<8>), ("16x4", BUintD16<4>, BIntD16<4>), ("32x2", BUintD32<2>, BIntD32<2>), ("64x1", BUint<1>, BInt<1>));
+cast_set!(g96; ("8x12", BUintD8<12>, BIntD8<12>), ("32x3", BUintD32<3>, BIntD32<3>));
+cast_set!(g128; ("8x16", BUintD8<16>, BIntD8<16>), ("32x4", BUintD32<4>, BIntD32<4>), ("64x2", BUint<2>, BInt<2>));
+cast_set!(g192; ("8x24", BUintD8<24>, BIntD8<24>), ("16x12", BUintD16<12>, BIntD16<12>), ("32x6", BUintD32<6>, BIntD32<6>), ("64x3", BUint<3>, BInt<3>));
+cast_set!(g320; ("8x40", BUintD8<40>, BIntD8<40>), ("16x20", BUintD16<20>, BIntD16<20>), ("32x10", BUintD32<10>, BIntD32<10>), ("64x5", BUint<5>, BInt<5>));
+cast_set!(g512; ("8x64", BUintD8<64>, BIntD8<64>), ("64x8", BUint<8>, BInt<8>));
+cast_set!(g8192; ("8x1024", BUintD8<1024>, BIntD8<1024>), ("16x512", BUintD16<512>, BIntD16<512>), ("32x256", BUintD32<256>, BIntD32<256>), ("64x128", BUint<128>, BInt<128>));
+// (narrow, wide) pairs: zero-/sign-extension (and, in the other direction, truncation)
+cast_set!(e1; ("64x2", BUint<2>, BInt<2>), ("64x16", BUint<16>, BInt<16>));
+cast_set!(e2; ("64x3", BUint<3>, BInt<3>), ("8x40", BUintD8<40>, BIntD8<40>));
+cast_set!(e3; ("8x16", BUintD8<16>, BIntD8<16>), ("8x1024", BUintD8<1024>, BIntD8<1024>));
+cast_set!(e4; ("64x5", BUint<5>, BInt<5>), ("16x512", BUintD16<512>, BIntD16<512>));
+cast_set!(e5; ("16x9", BUintD16<9>, BIntD16<9>), ("32x256", BUintD32<256>, BIntD32<256>));
+cast_set!(e6; ("32x6", BUintD32<6>, BIntD32<6>), ("64x128", BUint<128>, BInt<128>));
+cast_set!(e7; ("64x2", BUint<2>, BInt<2>), ("64x128", BUint<128>, BInt<128>));
+cast_set!(e8; ("8x5", BUintD8<5>, BIntD8<5>), ("64x4", BUint<4>, BInt<4>));
+cast_set!(e9; ("64x8", BUint<8>, BInt<8>), ("8x1024", BUintD8<1024>, BIntD8<1024>));
+cast_set!(e10; ("8x7", BUintD8<7>, BIntD8<7>), ("64x1", BUint<1>, BInt<1>));
+cast_set!(e11; ("8x5", BUintD8<5>, BIntD8<5>), ("16x4", BUintD16<4>, BIntD16<4>));
+cast_set!(e12; ("32x2", BUintD32<2>, BIntD32<2>), ("8x17", BUintD8<17>, BIntD8<17>));
+cast_set!(e13; ("32x1", BUintD32<1>, BIntD32<1>), ("8x5", BUintD8<5>, BIntD8<5>));
+cast_set!(e14; ("16x3", BUintD16<3>, BIntD16<3>), ("64x1", BUint<1>, BInt<1>));
+
+fn cast(src: &str, dst: &str, x: &str) -> Option<String> {
+    const SETS: [fn(&str, &str, &str) -> Option<String>; 23] =
+        [g16, g32, g64, g96, g128, g192, g320, g512, g8192, e1, e2, e3, e4, e5, e6, e7, e8, e9, e10, e11, e12, e13, e14];
+    SETS.iter().find_map(|f| f(src, dst, x))
+}
 
 macro_rules! consts {
     ($T:ty, $name:expr, $($c:ident),*) => { match $name { $( stringify!($c) => Some(<$T>::$c.out()), )* _ => None } };
@@ -31,6 +89,9 @@ impl<const N: usize> BitsLen for bnum::BInt<N> { fn to_bits_len(&self) -> usize 
 
 fn main() {
     serve(|op, cfg, args| {
+        if op == "cast" {
+            return cast(cfg, args[0], args[1]);
+        }
         if op == "alias" {
             return alias!(args[0], U128, U256, U512, U1024, U2048, U4096, U8192, I128, I256, I512, I1024, I2048, I4096, I8192);
         }
